@@ -1559,9 +1559,9 @@ class Color(object):
     @staticmethod
     def parse_color_rgb(values):
         """Parse SVG Color, RGB value declarations"""
-        r = int(round(float(values[0])))
-        g = int(round(float(values[1])))
-        b = int(round(float(values[2])))
+        r = int(round(min(max(float(values[0]), 0.0), 255.0)))
+        g = int(round(min(max(float(values[1]), 0.0), 255.0)))
+        b = int(round(min(max(float(values[2]), 0.0), 255.0)))
         if values[3] is not None:
             opacity = float(values[3])
         else:
